@@ -162,13 +162,17 @@ func (g *G) modifiers() string {
 // regex on it, so that dropping the name can make distinct series collide.
 func (g *G) nameAndMatchers() string {
 	if len(g.P.Metrics) == 0 && g.R.Intn(25) == 0 {
-		switch g.R.Intn(3) {
+		switch g.R.Intn(5) {
 		case 0:
 			return fmt.Sprintf(`{%s="%s"}`, g.oneOf(LabelKeys...), g.oneOf(LabelVals...))
 		case 1:
 			return `{__name__=~"m1|m2"}`
 		case 2:
 			return fmt.Sprintf(`{__name__=~"m.*",%s!="%s"}`, g.oneOf(LabelKeys...), g.oneOf(LabelVals...))
+		case 3:
+			return fmt.Sprintf(`{__name__!="%s",%s="%s"}`, g.oneOf("m1", "m2", "m3"), g.oneOf(LabelKeys...), g.oneOf(LabelVals...))
+		case 4:
+			return fmt.Sprintf(`{__name__!~"%s|zz"}`, g.oneOf("m1", "m2", "m3"))
 		}
 	}
 	m := g.metric()
